@@ -238,6 +238,15 @@ func genC12(g *Gen, tier string) *Program {
 		r = [2]int{6, 40}
 	}
 	genM3(g, p, m3GenOpts{nameLen: []int{1, 3, 8, 20, 60, 200, 600}, maxTags: 8, tasks: [2]int{1, 3}, reports: r, bursts: true})
+	if g.Bool(25) {
+		// F5: one or two sends fail; the size bound also holds for whatever is sent
+		// afterwards (a reporter that keeps or re-sends a failed batch must still
+		// respect it), and a failed datagram may be lost only as a whole
+		p.Cfg.Faults.SendFail = []int{g.Range(1, 3)}
+		if g.Bool(30) {
+			p.Cfg.Faults.SendFail = append(p.Cfg.Faults.SendFail, g.Range(2, 5))
+		}
+	}
 	return p
 }
 
@@ -469,10 +478,32 @@ func (a *m3Analysis) match(env *Env) {
 				a.out = append(a.out, vf("unknown-metric", "datagram #%d carries %s %q value %d/%v tags %v which was never reported", b.dg.Index, m.kind, m.name, m.i, f64from(m.f), m.tags))
 				continue
 			}
-			e := es[0]
+			// several reports may share kind, name and value (a counter "m" and a
+			// bucket of a histogram "m" both travel as counters): attribute the wire
+			// metric to one whose allocated tags it carries, if there is one; among
+			// those (or, failing that, among all) to the one seen least often
+			tagsFit := func(x *m3Exp) bool {
+				want := copyTags(x.h.tags)
+				if want == nil {
+					want = map[string]string{}
+				}
+				if x.h.kind == "m3b" {
+					want[idTag], want[bkTag] = m.tags[idTag], m.tags[bkTag]
+				}
+				return tagsKey(m.tags) == tagsKey(want)
+			}
+			var e *m3Exp
 			for _, x := range es {
-				if x.found < e.found {
+				if tagsFit(x) && (e == nil || x.found < e.found || (x.found == e.found && len(x.where) < len(e.where))) {
 					e = x
+				}
+			}
+			if e == nil {
+				e = es[0]
+				for _, x := range es {
+					if x.found < e.found {
+						e = x
+					}
 				}
 			}
 			if b.dg.Err == "" {
@@ -702,17 +733,17 @@ func checkC13(env *Env) []Violation {
 }
 
 func checkC12(env *Env) []Violation {
-	a := analyseM3(env, false)
+	faults := len(env.Prog.Cfg.Faults.SendFail) > 0 || env.Prog.Cfg.Faults.FailFrom > 0 || env.Prog.Cfg.Faults.CloseDest > 0
+	a := analyseM3(env, faults)
 	a.match(env)
-	a.exactlyOnce(env, false)
+	a.exactlyOnce(env, faults)
 	st := env.m3()
 	if st == nil {
 		return a.out
 	}
 	for _, b := range a.batches {
-		if b.err != "" {
-			continue
-		}
+		// the bound is on what the reporter hands to the socket, whether or not
+		// the send then succeeds
 		if len(b.dg.Data) > int(st.cfg.MaxPacket) && len(b.metrics) > 1 {
 			kinds := map[string]int{}
 			for _, m := range b.metrics {
